@@ -109,8 +109,8 @@ def task_session(args):
     classes = set()
     n = 0
     for fam, cv, msg, asn4 in codec.sliced(cases_of(which, tier), lo, hi):
-        if not asn4 or fam == 'ipv4-unicast-mp':
-            continue
+        if fam == 'ipv4-unicast-mp' or (not asn4 and fam != 'ipv4-unicast'):
+            continue          # the session is a 4-octet-AS one; the prefix-shape cases (pool width "2-octet") are valid in it too
         ok, why = upd.in_range(msg, True)
         if not ok or not (msg.get('attr') or msg.get('withdraw')):
             continue
@@ -123,7 +123,7 @@ def task_session(args):
         if st != 'ok' or not res[0] or len(wrote) != 1:
             classes.add((fam, 'send refused'))
             continue                      # a refused send is C16's business; nothing crossed the wire
-        b = W.replay({}, est, M)
+        b = W.replay({'rib': bool(n % 2)}, est, M)      # the receiver alternately with and without RIB maintenance (CONF.bgp.rib)
         got = []
         b.handler.update_received = lambda peer, ts, m: got.append(copy.deepcopy(m))
         errs = []
